@@ -275,13 +275,18 @@ func linStrs(ls []*Lin) []string {
 // it draws only through io.ReadFull into one of its own slice parameters as a whole, tests the error before any use,
 // returns a provably non-nil error on the failing arm without redrawing, and returns a nil error only after a successful draw.
 func c19Helper(r *Report, p *Prog, cal *ssa.Function, site *ssa.Call) (bufIdx int, problems []string) {
-	bufIdx = -1
 	rdIdx := -1
 	for i, a := range site.Call.Args {
 		if prm, ok := a.(*ssa.Parameter); ok && prm.Name() == "rand" {
 			rdIdx = i
 		}
 	}
+	return drawHelperInfo(p, cal, rdIdx)
+}
+
+// drawHelperInfo: is cal, whose parameter rdIdx is the reader, a sound draw helper? Returns the index of its buffer parameter.
+func drawHelperInfo(p *Prog, cal *ssa.Function, rdIdx int) (bufIdx int, problems []string) {
+	bufIdx = -1
 	if rdIdx < 0 || rdIdx >= len(cal.Params) {
 		return -1, []string{"cannot identify the reader parameter of the helper"}
 	}
